@@ -3,8 +3,10 @@
 Each entry: (property, id, file, find, replace, expected rule, why, source)."""
 import json, os, collections
 M = []
-def m(prop, id, file, find, replace, expect, why, source="design", more=None):
+def m(prop, id, file, find, replace, expect, why, source="design", more=None, all=False):
     d = dict(prop=prop, id=id, file=file, find=find, replace=replace, expect=expect, why=why, source=source)
+    if all:
+        d["all"] = True
     if more:
         d["more"] = [dict(find=f, replace=r) for f, r in more]
     M.append(d)
@@ -931,6 +933,74 @@ m("C18", "duplicate-request-fails-existing", RR,
   "	result, err := m.acceptRequest(chid, incoming)\n",
   "	result, err := m.acceptRequest(chid, incoming)\n	if err != nil {\n		_ = m.channels.Error(chid, err)\n	}\n",
   "C18.3", "a duplicate new-request fails the existing healthy channel", "seeded/C18b")
+
+# ---------------- neutral variants: behaviour-preserving edits that must NOT be reported
+def n(props, id, file, find, replace, why, more=None, all=False):
+    for p in props:
+        m(p, "neutral-" + id, file, find, replace, "", why, "neutral", more, all)
+
+n(["C01", "C03"], "rename-completeErr", EV, "completeErr", "cerr", "parameter renamed", all=True)
+n(["C01", "C03"], "finalization-branch-swapped", EV,
+  "	if chst.RequiresFinalization() {\n		return m.channels.BeginFinalizing(chid)\n	}\n	return m.channels.Complete(chid)",
+  "	if !chst.RequiresFinalization() {\n		return m.channels.Complete(chid)\n	}\n	return m.channels.BeginFinalizing(chid)",
+  "condition inverted with branches swapped")
+n(["C03", "C09", "C11", "C02"], "frommany-split", FSM,
+  "		FromMany(datatransfer.Ongoing, datatransfer.Requested, datatransfer.Queued, datatransfer.AwaitingAcceptance).ToJustRecord().\n		Action(func(chst *internal.ChannelState) error {\n			chst.InitiatorPaused = true",
+  "		FromMany(datatransfer.Requested, datatransfer.Ongoing).ToJustRecord().\n		From(datatransfer.AwaitingAcceptance).ToJustRecord().\n		From(datatransfer.Queued).ToJustRecord().\n		Action(func(chst *internal.ChannelState) error {\n			chst.InitiatorPaused = true",
+  "FromMany split and reordered")
+n(["C04"], "requestError-as-switch", RR,
+  "	if resultErr != nil {\n		return resultErr\n	}\n	if !result.Accepted {\n		return datatransfer.ErrRejected\n	}\n	if stayPaused {\n		return datatransfer.ErrPause\n	}\n	return nil",
+  "	switch {\n	case resultErr != nil:\n		return resultErr\n	case !result.Accepted:\n		return datatransfer.ErrRejected\n	case stayPaused:\n		return datatransfer.ErrPause\n	default:\n		return nil\n	}",
+  "if-chain rewritten as switch")
+n(["C04", "C18"], "accept-guard-split", RR,
+  "	if err != nil || !result.Accepted {\n		return result, err\n	}\n\n	// create the channel",
+  "	if err != nil {\n		return result, err\n	}\n	if !result.Accepted {\n		log.Debugf(\"request %s rejected\", chid)\n		return result, nil\n	}\n\n	// create the channel",
+  "disjunctive guard split into two returns (err is nil on the second)")
+n(["C05", "C02"], "restart-checks-reordered", RS,
+  "	// channel initator should be the sender peer\n	if channel.ChannelID().Initiator != otherPeer {\n		return errors.New(\"other peer is not the initiator of the channel\")\n	}\n\n	// channel and request baseCid should match\n	if req.BaseCid() != channel.BaseCID() {\n		return errors.New(\"base cid does not match\")\n	}\n",
+  "	// channel and request baseCid should match\n	if req.BaseCid() != channel.BaseCID() {\n		return errors.New(\"base cid does not match\")\n	}\n\n	// channel initator should be the sender peer\n	if otherPeer != channel.ChannelID().Initiator {\n		return errors.New(\"other peer is not the initiator of the channel\")\n	}\n",
+  "independent checks reordered, operands swapped")
+n(["C08"], "leave-paused-early-return", MG,
+  "	return vr.DataLimit != 0 && limitFactor >= vr.DataLimit",
+  "	if vr.DataLimit == 0 {\n		return false\n	}\n	return !(limitFactor < vr.DataLimit)",
+  "conjunction rewritten as early return and negated comparison")
+n(["C07", "C20"], "cas-loop-negated-compare", CA,
+  "		if newIndex <= currentIndex {\n			return false, nil\n		}",
+  "		if !(newIndex > currentIndex) {\n			return false, nil\n		}",
+  "comparison negated")
+n(["C09", "C11"], "cancel-message-branches-swapped", UT,
+  "func (m *manager) cancelMessage(chid datatransfer.ChannelID) datatransfer.Message {\n	if chid.Initiator == m.peerID {\n		return message.CancelRequest(chid.ID)\n	}\n	return message.CancelResponse(chid.ID)",
+  "func (m *manager) cancelMessage(chid datatransfer.ChannelID) datatransfer.Message {\n	if chid.Initiator != m.peerID {\n		return message.CancelResponse(chid.ID)\n	}\n	return message.CancelRequest(chid.ID)",
+  "condition inverted with branches swapped")
+n(["C14", "C20"], "rename-restartCount", CM, "restartCount", "attempt", "local and parameter renamed", all=True)
+n(["C15"], "cap-compare-negated", NET,
+  "		if nAttempts >= impl.maxStreamOpenAttempts {",
+  "		if !(nAttempts < impl.maxStreamOpenAttempts) {",
+  "comparison negated")
+n(["C07", "C16", "C01"], "onwire-local", GS,
+  "	if block.BlockSizeOnWire() == 0 {\n		return\n	}\n\n	chid, ok := t.requestIDToChannelID.load(request.ID())\n	if !ok {\n		return\n	}\n\n	if err := t.events.OnDataSent",
+  "	if onWire := block.BlockSizeOnWire(); onWire == 0 {\n		return\n	}\n\n	chid, found := t.requestIDToChannelID.load(request.ID())\n	if !found {\n		return\n	}\n\n	if err := t.events.OnDataSent",
+  "local introduced, ok renamed")
+n(["C19", "C06"], "ispull-operands-swapped", CS,
+  "	return c.ic.Initiator == c.ic.Recipient",
+  "	return c.ic.Recipient == c.ic.Initiator",
+  "operands of == swapped")
+n(["C10", "C18"], "restart-locals-inlined", RS,
+  "	req, err := message.NewRequest(chid.ID, true, true, &voucher, baseCid, selector)",
+  "	req, err := message.NewRequest(channel.ChannelID().ID, true, true, &voucher, channel.BaseCID(), selector)",
+  "locals inlined")
+n(["C12", "C04"], "accepted-via-local", MSG,
+  "		RequestAccepted:       validationErr == nil && validationResult.Accepted,",
+  "		RequestAccepted:       validationResult.Accepted && validationErr == nil,",
+  "conjuncts swapped")
+n(["C13", "C02", "C19"], "migration-status-switch", MIG,
+  "	if newStatus == datatransfer.ResponderPaused || newStatus == datatransfer.InitiatorPaused || newStatus == datatransfer.BothPaused {\n		newStatus = datatransfer.Ongoing\n	}",
+  "	switch newStatus {\n	case datatransfer.BothPaused, datatransfer.InitiatorPaused, datatransfer.ResponderPaused:\n		newStatus = datatransfer.Ongoing\n	}",
+  "if rewritten as switch, order changed")
+n(["C17"], "subscriber-key-local", "channelsubscriptions/channelsubscriptions.go",
+  "	if channels.IsChannelTerminated(state.Status()) {\n		cs.subscriptionsLk.Lock()\n		delete(cs.subscriptions, state.ChannelID())\n		cs.subscriptionsLk.Unlock()\n	}",
+  "	if st := state.Status(); channels.IsChannelTerminated(st) {\n		cs.subscriptionsLk.Lock()\n		delete(cs.subscriptions, state.ChannelID())\n		cs.subscriptionsLk.Unlock()\n	}",
+  "status read into a local")
 
 by = collections.defaultdict(list)
 for x in M:
